@@ -62,6 +62,43 @@ def selectJudge (f : List String) (out : String) : String :=
     | some o => Casket.PolicySpec.verdict c.kind c.pool o
   | _, _ => "bad:unparsable:" ++ out
 
+/-- c05.seq: several Selects on one upstream; the counter is threaded through. -/
+def parseStep (kind robin : String) (st : String) : Option Case :=
+  match st.splitOn "|" with
+  | [p, key, rs, seed] => parseCase [kind, p, robin, key, rs, seed]
+  | _ => none
+
+def seqRun (kind : String) : List String → Nat → List (Option Nat) → Option (List (Option Nat) × Nat)
+  | [], robin, acc => some (acc.reverse, robin)
+  | st :: rest, robin, acc =>
+    match parseStep kind "0" st with
+    | none => none
+    | some c =>
+      let (o, r) := upstreamSelect c.kind c.pool robin c.hash c.rands
+      seqRun kind rest r (o :: acc)
+
+def seqModel : List String → String
+  | [kind, robin0, steps] =>
+    match robin0.toNat?, seqRun kind (steps.splitOn ";") (robin0.toNat?.getD 0) [] with
+    | some _, some (os, r) => ",".intercalate (os.map Driver.optNat) ++ "\t" ++ toString r
+    | _, _ => "bad-case"
+  | _ => "bad-case"
+
+def seqJudgeGo (kind : String) : List String → List String → String
+  | [], [] => "ok"
+  | st :: rest, o :: os =>
+    match parseStep kind "0" st, Driver.parseOptNat o with
+    | some c, some o =>
+      let v := Casket.PolicySpec.verdict c.kind c.pool o
+      if v == "ok" then seqJudgeGo kind rest os else v
+    | _, _ => "bad:unparsable:" ++ o
+  | _, _ => "bad:unparsable:step count"
+
+def seqJudge (f : List String) (out : String) : String :=
+  match f, out.splitOn "\t" with
+  | [kind, _, steps], [os, _] => seqJudgeGo kind (steps.splitOn ";") (os.splitOn ",")
+  | _, _ => "bad:unparsable:" ++ out
+
 def fnvModel : List String → String
   | [h] => match Driver.unhex h with
     | some bs => toString (fnv32a bs)
@@ -70,6 +107,7 @@ def fnvModel : List String → String
 
 def streams : List Driver.Stream := [
   { name := "c05.select", model := selectModel, judge := selectJudge },
+  { name := "c05.seq", model := seqModel, judge := seqJudge },
   { name := "c05.fnv", model := fnvModel, judge := fun _ _ => "ok" }
 ]
 
